@@ -50,6 +50,16 @@ CHECKS = {
              "already executed under lazy-BB cannot be inlined by later modules - recorded in DESIGN.md as out of this property). A function export "
              "arriving after an external of the same name without permission is treated as unspecified.",
         design="3/C13"),
+    "C14": dict(
+        technique=TECH + "layout/content oracle recomputed from the declarations, read from the live process after load+link",
+        text="Generated modules of 3-40 data-like items (every element type, lengths incl. 0, named/anonymous mixtures, sections interrupted by "
+             "other items, refs to earlier/later items through forward or export declarations, to functions, to another module's exports and to "
+             "externals, expr items of every result type, single- and two-label lrefs) are scanned, loaded and linked under the interpreter, the "
+             "eager and the lazy generator; the harness recomputes each section's layout from declaration order and sizes and reads every item's "
+             "address and bytes from memory (data = declared bytes, bss zero, ref = target+disp, expr = value computed independently, "
+             "single-label lref reached by an indirect jump and equal to laddr, two-label lref equal to the same engine's laddr difference).",
+        note="Trusted: my own size table (ld = 16 bytes on x86-64) and the section rule of MIR.md. Section tail padding is not judged.",
+        design="3/C14"),
     "C10": dict(
         technique=TECH + "round-trip oracle: structural module comparison through the public API + text fixpoint + differential execution",
         text="Modules covering the whole item/insn/operand vocabulary are built through the API, written by MIR_output_module, scanned back into a "
